@@ -10,7 +10,7 @@ CFG = dict(
     post=_post,
     prop="C02", level="proof", harness="c02",
     props_files=["theories/Props/C02.v", "theories/Props/Pem.v"], corr_file="theories/Corr/C02.v", corr_module="Corr.C02",
-    extra_targets=["theories/Corr/Pem.vo", "theories/Pem/WfRoot.vo"],   # imported by the generated coq/gen/PemGrammar_<d>.v of the Pem stage (absent in a fresh clone / after make clean)
+    extra_targets=["theories/Corr/Pem.vo", "theories/Pem/WfRoot.vo", "theories/Pem/NoPanicMon.vo"],   # imported by the generated coq/gen/PemGrammar_<d>.v of the Pem stage (absent in a fresh clone / after make clean)
     groups={"root": False, "append": False, "wrap": False},
     show_fn={"root": "model_root", "append": "model_append", "wrap": "model_wrap"},
     shard=120,
